@@ -658,7 +658,10 @@ class BaseWorkflow(object, metaclass=abc.ABCMeta):
                         ready = False
                         break
                 elif dependency == BaseTaskDependency.SS:
-                    if input_task.state == BaseTaskState.WORKING:
+                    if (
+                        input_task.state == BaseTaskState.WORKING
+                        or input_task.state == BaseTaskState.FINISHED
+                    ):
                         ready = True
                     else:
                         ready = False
